@@ -38,7 +38,10 @@ CONFIG = dict(
 )
 
 INJ_SRC = "__import__('vp_sink').hit('INJ', 7)"
-FN_DEF = "def vpfn(obj, *extra):\n    import vp_sink\n    vp_sink.LOG.append(('fn', extra, {}))\n    return obj\n"
+# the injected definition carries an annotation whose evaluation leaves a mark (annotations are evaluated when the `def`
+# statement runs - unless the definition was compiled with postponed annotations): the recorded call tells which
+FN_DEF = ("def vpfn(obj: __import__('vp_sink').__dict__.setdefault('ANN', []).append(1), *extra):\n    import vp_sink\n"
+          "    vp_sink.LOG.append(('fn', extra, {'ann': len(vp_sink.__dict__.pop('ANN', []))}))\n    return obj\n")
 
 MODES = []
 for _first in (True, False):
@@ -134,7 +137,14 @@ def gate(data, rewritten=False):
     if not rewritten:
         return c02.load_for_real_ok(data)
     import marshal
-    expected_code = compile(FN_DEF, "<string>", "exec")
+    # any compilation of the harness's own harmless definition may be run (flags / optimisation level are the tree's choice;
+    # what the choice does to the definition's meaning is judged on the effects of the load)
+    import __future__
+    expected_codes = set()
+    for fl in (0, __future__.annotations.compiler_flag):
+        for opt_ in (0, 1, 2):
+            for fn_ in ("<string>", "<fickling>", "<pickle>"):
+                expected_codes.add(compile(FN_DEF, fn_, "exec", flags=fl, dont_inherit=True, optimize=opt_))
     ok_src = {repr(INJ_SRC), repr(FN_DEF), repr("vpfn")} | {repr(x) for x in c02.HARMLESS_EVAL_SRC}
     vm, _err = refvm.run_ref(data)
     for ev in vm.log.events:
@@ -153,7 +163,7 @@ def gate(data, rewritten=False):
                 continue
             if a[0] == "k" and a[1] == "bytes" and ev[1][2] == "loads":
                 try:
-                    if marshal.loads(eval(a[2])) == expected_code:      # a[2] is repr(bytes) made by the harness
+                    if marshal.loads(eval(a[2])) in expected_codes:      # a[2] is repr(bytes) made by the harness
                         continue
                 except Exception:
                     pass
@@ -237,7 +247,7 @@ def inject(f, p, mode, opt):
         return None, None, None
     if mode == "insert_fn":
         p.insert_function_call_on_unpickled_object(FN_DEF, constant_args=opt["args"], compile_code=opt["compile"])
-        return ("fn", tuple(opt["args"] or ()), {}), None, "last"
+        return ("fn", tuple(opt["args"] or ()), {"ann": 1}), None, "last"
     raise ValueError(mode)
 
 
